@@ -290,6 +290,17 @@ CLAIMS = {
             "token is written only under an emptiness test of the value",
             "equality of the parsed values themselves (trimming, one-element lists, empty values) is runtime",
             "§8.6 (added after the design: C39 was first declared not applicable)"),
+    "C18": ("finite-world abstract interpretation of the selection predicates and table extraction from the conversion "
+            "switches (AST/CFG), composed across elf-helpers, symtab-reader, ir, corpus and writer",
+            "which ELF symbols become entries of the two symbol tables and under which type / binding / visibility word: "
+            "R-SYMCONV (ELF constant -> enumerator -> ABIXML word, by name, injective), R-SYMPUBLIC (is_public over "
+            "defined x binding x visibility), R-SYMKIND (type filter of load_ o conversion o is_function/is_variable is a "
+            "partition of what is loaded), R-SYMFILTER (corpus filter evaluated by symtab_filter::matches = public && kind), "
+            "R-SYMSECT (writer sections), R-SYMSEL (.symtab/.dynsym choice per e_type), R-SYMALIAS (same address => alias "
+            "of the symbol found there), R-VERDEFAULT (default mark = negated hidden bit)",
+            "names, sizes, addresses, version strings and the alias groups themselves are values read from the binary; "
+            "agreement with readelf on them is runtime",
+            "§8.6 (added after the design: C18 was first declared not applicable)"),
     "C21": ("AST shape rule over all overriders of diff::has_changes (sibling agreement) + operand-pairing rule over "
             "the ir::equals overloads",
             "every artifact diff's has_changes() is the negation of the IR deep-equality operator applied to the "
@@ -307,7 +318,6 @@ NOT_APPLICABLE = {
     "C15": "values decoded from DWARF by elfutils and interpreted by the reader; the oracle is a compiler, nothing static bounds it",
     "C16": "values decoded from DWARF (signatures) against source; runtime oracle",
     "C17": "partition between symtab and DWARF-attached symbols is a runtime association; a shape proxy would be a frozen fragment",
-    "C18": "oracle is readelf on runtime data; the enum/string vocabulary part is decided under C02",
     "C20": "canonicalisation vs structural equality needs the runtime type graphs",
     "C26": "set relation over runtime artifacts (types by declaration location)",
     "C35": "generic memory safety / UB of 120 kLOC has no repo-specific structural rule; sanitizers are a dynamic technique",
